@@ -132,7 +132,12 @@ Definition ev_of_json (j : json) : option ev :=
 Fixpoint all_numbers_to_int (l : list json) : option (list ev) :=
   match l with
   | [] => Some []
-  | JNum n :: r => match all_numbers_to_int r with Some es => Some (EVInt (Qtrunc_z (nq n)) :: es) | None => None end
+  | JNum n :: r =>
+      (* an integral member inside the int range becomes an int; any other number stays the float64 it was decoded as (it can never equal an int) *)
+      match all_numbers_to_int r with
+      | Some es => Some ((if Qis_int (nq n) && in_range KInt (Qtrunc_z (nq n)) then EVInt (Qtrunc_z (nq n)) else EVFloat (nq n)) :: es)
+      | None => None
+      end
   | _ => None
   end.
 Inductive vkind := VKNone | VKIface | VKStr | VKNum | VKBool.
